@@ -32,6 +32,9 @@ pub fn par_runs<R: Send, F: Fn(u64) -> R + Sync>(n: u64, f: F) -> Vec<R> {
                         if i >= n {
                             break;
                         }
+                        if std::env::var("VERIF_DEBUG").is_ok() {
+                            eprintln!("run {}", i);
+                        }
                         local.push((i, f(i)));
                         if local.len() >= 64 {
                             results.lock().unwrap().append(&mut local);
